@@ -192,7 +192,7 @@ def gen_cases(out, tier):
         # num_overviews (terminating inputs: block >= 0)
         for b in [0, 1, 2, 15, 16, 17, 32, 48, 64, 100, 256, 512]:
             for d in list(range(-3, 300 if thorough else 70)) + [100, 127, 128, 129, 255, 256, 257, 511, 512, 513, 1023, 1024, 1025, 4096, 10 ** 6, 2 ** 40 + 1]:
-                with limited(5, f"num_overviews({b}, {d})"):
+                with limited(20, f"num_overviews({b}, {d})"):
                     c = S.num_overviews(b, d)
                 add("num_overviews", f"CNumOvr {cz(b)} {cz(d)} {cz(c)}", (b, d), b < d)
         for x in list(range(-2, 70)) + [2 ** k + e for k in (7, 10, 20, 49, 60) for e in (-1, 0, 1)]:
@@ -347,7 +347,7 @@ def gen_cases(out, tier):
     problems = []
     for name, fn in sections:
         try:
-            with limited(240 if thorough else 90, name):
+            with limited(300, name):
                 fn()
         except Exception as e:      # a crash or hang inside the implementation: reported, the search still runs
             problems.append(f"{name}: {type(e).__name__}: {str(e)[:300]}")
@@ -613,7 +613,7 @@ class WriterTimeout(Exception):
     pass
 
 
-def run_limited(cfg, work, seconds=90):
+def run_limited(cfg, work, seconds=300):
     """run_writer under a wall-clock limit (a writer that never returns is a failure, not a hung check)"""
     import signal
 
